@@ -46,7 +46,7 @@ let err_name = function
   | EStringLongerThanFormat -> "EStringLongerThanFormat" | EStringDoesNotFit -> "EStringDoesNotFit"
   | EVariableLength -> "EVariableLength" | EOverflow -> "EOverflow" | EStringContainsZeros -> "EStringContainsZeros"
   | EBadFormat c -> "EBadFormat/" ^ hex_of_z c | ENotEnoughValues -> "ENotEnoughValues" | EEOF -> "EEOF"
-  | EUnmodelled -> "EUnmodelled"
+  | EUnmodelled -> "EUnmodelled" | EResultTooLarge -> "EResultTooLarge"
 
 
 let show_unpack (r : uout) : string =
@@ -60,6 +60,20 @@ let show_size (r : sout) : string =
   | SOk n -> "ok:i" ^ dec_of_z (to_i64 n)
   | SErr e -> "err:" ^ err_name e
   | SOutOfFuel -> "outoffuel"
+
+(* %[flags][width][.prec] of a directive whose verb is the last character; None if anything else is in between *)
+let parse_spec (str : string) (n : int) : spec option =
+  let i = ref 1 in
+  let mi = ref false and pl = ref false and sp = ref false and sh = ref false and ze = ref false in
+  while !i < n - 1 && String.contains "-+ #0" str.[!i] do
+    (match str.[!i] with '-' -> mi := true | '+' -> pl := true | ' ' -> sp := true | '#' -> sh := true | _ -> ze := true);
+    incr i done;
+  let num () = let j = !i in while !i < n - 1 && str.[!i] >= '0' && str.[!i] <= '9' do incr i done;
+               if !i > j then Some (z_of_int (int_of_string (String.sub str j (!i - j)))) else None in
+  let w = num () in
+  let p = if !i < n - 1 && str.[!i] = '.' then (incr i; (match num () with Some x -> Some x | None -> Some Z0)) else None in
+  if !i <> n - 1 then None
+  else Some { minus = !mi; plus = !pl; space = !sp; sharp = !sh; zero = !ze; wid = w; prec = p }
 
 let () =
   iter_lines (fun line ->
@@ -112,6 +126,14 @@ let () =
            print_endline (id ^ " F:ok:" ^ show_value (VStr (go_fmt c spc v)) ^ " C:" ^ show_value (VStr (c_fmt c spc v))
                           ^ " D:" ^ (if c_defined c spc then "1" else "0") ^ " X:" ^ (if defect_class_src c spc v then "1" else "0"))
          end
+       | [VStr bs] when n >= 2 && str.[0] = '%' && str.[n-1] = 's' ->
+         (match parse_spec str n with
+          | Some spc -> print_endline (id ^ " F:ok:" ^ show_value (VStr (go_fmt_s spc bs)) ^ " C:" ^ show_value (VStr (c_fmt_s spc bs)) ^ " D:1 X:0")
+          | None -> print_endline (id ^ " unmodelled"))
+       | [VInt v] when n >= 2 && str.[0] = '%' && str.[n-1] = 'c' ->
+         (match parse_spec str n with
+          | Some spc -> print_endline (id ^ " F:ok:" ^ show_value (VStr (go_fmt_c spc v)) ^ " C:" ^ show_value (VStr (c_fmt_c spc v)) ^ " D:1 X:0")
+          | None -> print_endline (id ^ " unmodelled"))
        | _ -> print_endline (id ^ " unmodelled"))
     | id :: "T" :: v :: _ ->
       (match parse_value v with
